@@ -385,3 +385,322 @@ Section RT.
         destruct (Hdep e (or_introl eq_refl)) as [_ H2]. pose proof (depth_pos e). lia.
   Qed.
 End RT.
+
+(* ------------------------------------------------------------------ the root of t2j: without thrift-base fields and ConvertException
+   the root walk is the member walk of json_of *)
+Lemma existsb_same {A} (p : A -> bool) l1 l2 : (forall x, In x l1 <-> In x l2) -> existsb p l1 = existsb p l2.
+Proof.
+  intros H. apply eq_true_iff_eq. rewrite !existsb_exists.
+  split; intros (x & Hx & Hp); exists x; (split; [apply H; exact Hx | exact Hp]).
+Qed.
+
+Lemma missing_required_same fs l1 l2 : (forall x, In x l1 <-> In x l2) -> missing_required fs l1 = missing_required fs l2.
+Proof.
+  intros H. unfold missing_required. induction fs as [|f fs IH]; [reflexivity|].
+  cbn [existsb]. rewrite IH. rewrite (existsb_same _ l1 l2 H). reflexivity.
+Qed.
+
+Definition member_step (o : Z) (fs : list (fmeta * tdesc)) (iv : Z * tval) : fres :=
+  match T2J.find_field fs (fst iv) with
+  | None => if T2J.o_disallow_unknown o then FErr T2J.E_UNKNOWN else FDrop
+  | Some f =>
+    match (if o_value_mapping o && f_jsconv (fst f) then jsconv o (snd iv) else T2J.json_of o (snd f) (snd iv)) with
+    | TOk e => FMem (f_key (fst f)) e
+    | TExc _ => FErr 0
+    | TErr c => FErr c
+    end
+  end.
+
+Lemma json_of_struct_eq o fs vs : T2J.json_of o (DStruct fs) (VStruct vs) =
+  match members_of (map (member_step o fs) vs) with
+  | inr c => TErr c
+  | inl ms => if missing_required fs (map fst vs) then TErr T2J.E_REQUIRED else TOk (EObj ms)
+  end.
+Proof. reflexivity. Qed.
+
+Lemma root_walk_plain o fs : o_convert_exception o = false ->
+  (forall id f, T2J.find_field fs id = Some f -> f_respbase (fst f) = false) ->
+  forall vs acc seen bs ms,
+  (forall iv, In iv vs -> T2J.find_field fs (fst iv) <> None) ->
+  members_of (map (member_step o fs) vs) = inl ms ->
+  root_walk o fs vs acc seen bs =
+  (if missing_required fs (rev (map fst vs) ++ seen) then TErr T2J.E_REQUIRED else TOk (EObj (rev acc ++ ms)), bs).
+Proof.
+  intros Hce Hrb. induction vs as [|[id x] r IH]; intros acc seen bs ms Hk Hmem.
+  - cbn in Hmem. inversion Hmem; subst. cbn [root_walk map rev app]. rewrite app_nil_r. reflexivity.
+  - cbn [root_walk]. cbn [map members_of] in Hmem. unfold member_step at 1 in Hmem. cbn [fst snd] in Hmem.
+    destruct (T2J.find_field fs id) as [f|] eqn:Ef; [|exfalso; apply (Hk (id, x) (or_introl eq_refl)); exact Ef].
+    rewrite (Hrb id f Ef), andb_false_r, Hce. cbn [andb]. unfold field_value.
+    destruct (if o_value_mapping o && f_jsconv (fst f) then jsconv o x else T2J.json_of o (snd f) x) as [e|e|c]; try discriminate.
+    destruct (members_of (map (member_step o fs) r)) as [ms'|] eqn:Er; [|discriminate]. inversion Hmem; subst ms.
+    rewrite (IH ((f_key (fst f), e) :: acc) (id :: seen) bs ms' (fun iv Hiv => Hk iv (or_intror Hiv)) eq_refl).
+    cbn [map rev fst]. rewrite <- !app_assoc. reflexivity.
+Qed.
+
+Lemma t2j_spec_plain o d v e : o_convert_exception o = false ->
+  (forall fs id f, d = DStruct fs -> T2J.find_field fs id = Some f -> f_respbase (fst f) = false) ->
+  (forall fs vs iv, d = DStruct fs -> v = VStruct vs -> In iv vs -> T2J.find_field fs (fst iv) <> None) ->
+  T2J.json_of o d v = TOk e -> fst (t2j_spec o d v) = TOk e.
+Proof.
+  intros Hce Hrb Hk H. unfold t2j_spec.
+  destruct d as [tc|bn|fs|dk dv|st de]; try exact H.
+  destruct v as [ | | | | | | |vs| | | ]; try exact H.
+  rewrite json_of_struct_eq in H.
+  destruct (members_of (map (member_step o fs) vs)) as [ms|] eqn:Em; [|discriminate].
+  destruct (missing_required fs (map fst vs)) eqn:Emr; [discriminate|]. inversion H; subst e.
+  rewrite (root_walk_plain o fs Hce (fun id f => Hrb fs id f eq_refl) vs [] [] None ms (fun iv => Hk fs vs iv eq_refl eq_refl) Em).
+  cbn [fst rev app]. rewrite app_nil_r.
+  rewrite (missing_required_same fs (rev (map fst vs)) (map fst vs)); [rewrite Emr; reflexivity|].
+  intros x. symmetry. apply in_rev.
+Qed.
+
+Lemma f_respbase_fmeta_of fd : f_respbase (fmeta_of fd) = false.
+Proof. unfold f_respbase, fmeta_of. cbn [f_flags]. destruct (f_vm fd); reflexivity. Qed.
+
+Lemma t2j_spec_tdesc_of o D n t v e : o_convert_exception o = false -> rt_dom D t v = true -> (depth v <= n)%nat ->
+  T2J.json_of o (tdesc_of D n t) v = TOk e -> fst (t2j_spec o (tdesc_of D n t) v) = TOk e.
+Proof.
+  intros Hce Hd Hn H. apply t2j_spec_plain; [exact Hce| | |exact H].
+  - intros fs id f Hfs Hf.
+    destruct t; try (destruct n; discriminate).
+    destruct n as [|n']; [destruct v; cbn in Hd; try discriminate; cbn [depth] in Hn; lia|].
+    cbn in Hfs. destruct (nth_error D i) as [sd|]; inversion Hfs; subst fs; [|discriminate].
+    rewrite find_field_tdesc in Hf. destruct (find_id sd id) as [fd|]; [|discriminate].
+    cbn in Hf. inversion Hf; subst f. apply f_respbase_fmeta_of.
+  - intros fs vs iv Hfs Hv Hin Hnone. subst v.
+    destruct t; cbn [rt_dom] in Hd; try discriminate.
+    destruct (nth_error D i) as [sd|] eqn:Hsd; [|discriminate].
+    destruct n as [|n']; [cbn [depth] in Hn; lia|].
+    rewrite (tdesc_of_struct D n' i sd Hsd) in Hfs. inversion Hfs; subst fs.
+    apply andb_true_iff in Hd. destruct Hd as [_ Hd]. rewrite forallb_forall in Hd. specialize (Hd iv Hin).
+    rewrite find_field_tdesc in Hnone. destruct (find_id sd (fst iv)); discriminate.
+Qed.
+
+(* ------------------------------------------------------------------ the theorems *)
+Section Top.
+  Variable dlex : Z -> list Z.
+  Hypothesis Hdlex : dlex_contract dlex.
+
+  (* AST level: the document t2j denotes converts back to exactly the bytes of v *)
+  Theorem t2j_j2t_id_ast : forall D o o' t v n,
+    matching_opts o o' -> rt_dom D t v = true -> (depth v <= n)%nat -> Z.of_nat (depth v) <= max_level ->
+    exists e, T2J.json_of o (tdesc_of D n t) v = TOk e /\ jexp_finite e = true /\
+              j2t D o' t (to_json_d dlex e) = Ok (encode v).
+  Proof.
+    intros D o o' t v n Hm Hd Hn Hs.
+    destruct (rt_all dlex Hdlex D o o' Hm v t n 1 Hd Hn) as (e & Hj & Hfe & _ & _ & Hv); [lia|].
+    exists e. repeat split; assumption.
+  Qed.
+
+  (* text level: the text of the model's t2j (root walk included), followed by anything that does not continue a number,
+     is converted by the model's j2t (prefix parse included) to exactly the bytes of v *)
+  Theorem t2j_j2t_id_text : forall D o o' t v n r,
+    matching_opts o o' -> rt_dom D t v = true -> (depth v <= n)%nat -> Z.of_nat (depth v) <= max_level -> stop r = true ->
+    exists txt, t2j_doc dlex o D n t v = Some txt /\ j2t_text strict D o' t (txt ++ r) = Ok (encode v).
+  Proof.
+    intros D o o' t v n r Hm Hd Hn Hs Hr.
+    destruct (rt_all dlex Hdlex D o o' Hm v t n 1 Hd Hn) as (e & Hj & Hfe & _ & Hwf & Hv); [lia|].
+    destruct (matching_split _ _ Hm) as (_ & _ & _ & _ & Hce).
+    exists (json_print (to_json_d dlex e)). split.
+    - unfold t2j_doc. rewrite (t2j_spec_tdesc_of o D n t v e Hce Hd Hn Hj), Hfe. reflexivity.
+    - rewrite j2t_text_print_lemma by assumption. exact Hv.
+  Qed.
+End Top.
+
+(* ---- the exact-decimal printer of T2J.v ---- *)
+Lemma to_json_d_exact : forall e, to_json_d f64_exact_lexeme e = to_json e.
+Proof.
+  intros e. reflexivity.
+Qed.
+
+Lemma t2j_doc_exact o D n t v : t2j_doc f64_exact_lexeme o D n t v = t2j_text o (tdesc_of D n t) v.
+Proof.
+  reflexivity.
+Qed.
+
+(* the one unproved fact about the exact printer: the correctly rounding reader maps the exact decimal expansion of a
+   finite binary64 back to its bits (that the expansion is a number lexeme IS proved: num_okb_f64_exact) *)
+Definition f64_exact_contract : Prop :=
+  forall b, 0 <= b < 2 ^ 64 -> f64_is_finite b = true -> lex2f64 (f64_exact_lexeme b) = Some b.
+
+Lemma exact_contract_dlex : f64_exact_contract -> dlex_contract f64_exact_lexeme.
+Proof. intros H b Hb Hf. split; [apply num_okb_f64_exact | exact (H b Hb Hf)]. Qed.
+
+Theorem t2j_j2t_id : f64_exact_contract -> forall D o o' t v n r,
+  matching_opts o o' -> rt_dom D t v = true -> (depth v <= n)%nat -> Z.of_nat (depth v) <= max_level -> stop r = true ->
+  exists txt, t2j_text o (tdesc_of D n t) v = Some txt /\ j2t_text strict D o' t (txt ++ r) = Ok (encode v).
+Proof.
+  intros Hc D o o' t v n r Hm Hd Hn Hs Hr.
+  destruct (t2j_j2t_id_text f64_exact_lexeme (exact_contract_dlex Hc) D o o' t v n r Hm Hd Hn Hs Hr) as (txt & H1 & H2).
+  exists txt. rewrite <- t2j_doc_exact. split; assumption.
+Qed.
+
+(* ------------------------------------------------------------------ decode (encode v) = v at the top level *)
+Lemma fold_max_le_flat {A} (g : A -> nat) (h : A -> list Z) (l : list A) :
+  (forall x, In x l -> (g x <= length (h x))%nat) ->
+  (fold_right (fun a m => Nat.max (g a) m) O l <= length (flat_map h l))%nat.
+Proof.
+  induction l as [|a l IH]; intros H; [cbn; lia|].
+  cbn [fold_right flat_map]. rewrite app_length.
+  specialize (H a (or_introl eq_refl)) as Ha. specialize (IH (fun x Hx => H x (or_intror Hx))). lia.
+Qed.
+
+Lemma depth_le_encode : forall v, (depth v <= length (encode v))%nat.
+Proof.
+  induction v as [b|z|z|z|z|b|x|fs IH|kt vt es IH|et es IH|et es IH] using tval_ind'; cbn [depth encode];
+    try (rewrite ?enc_int_length; cbn [length]; lia).
+  - rewrite app_length, enc_int_length. lia.
+  - rewrite app_length. cbn [length]. rewrite Forall_forall in IH.
+    pose proof (fold_max_le_flat (fun f => depth (snd f)) (fun f => type_of (snd f) :: enc_int 2 (fst f) ++ encode (snd f)) fs) as H.
+    cbn beta in H. assert (Hx : forall x, In x fs -> (depth (snd x) <= length (type_of (snd x) :: enc_int 2 (fst x) ++ encode (snd x)))%nat).
+    { intros x Hx. cbn [length]. rewrite app_length. specialize (IH x Hx). lia. }
+    specialize (H Hx). lia.
+  - cbn [length]. rewrite app_length, enc_int_length. rewrite Forall_forall in IH.
+    pose proof (fold_max_le_flat (fun e => Nat.max (depth (fst e)) (depth (snd e))) (fun e => encode (fst e) ++ encode (snd e)) es) as H.
+    cbn beta in H. assert (Hx : forall x, In x es -> (Nat.max (depth (fst x)) (depth (snd x)) <= length (encode (fst x) ++ encode (snd x)))%nat).
+    { intros x Hx. rewrite app_length. destruct (IH x Hx). lia. }
+    specialize (H Hx). lia.
+  - cbn [length]. rewrite app_length, enc_int_length. rewrite Forall_forall in IH.
+    pose proof (fold_max_le_flat depth encode es IH). lia.
+  - cbn [length]. rewrite app_length, enc_int_length. rewrite Forall_forall in IH.
+    pose proof (fold_max_le_flat depth encode es IH). lia.
+Qed.
+
+Theorem decode_all_encode : forall v, wf v = true -> decode_all (type_of v) (encode v) = Some v.
+Proof.
+  intros v Hw. unfold decode_all.
+  pose proof (decode_encode v Hw (S (length (encode v))) []) as H. rewrite app_nil_r in H.
+  rewrite H; [reflexivity|]. pose proof (depth_le_encode v). lia.
+Qed.
+
+(* a document denotes what it denotes *)
+Lemma zlist_eqb_refl' : forall a, zlist_eqb a a = true.
+Proof. intros a. apply zlist_eqb_eq. reflexivity. Qed.
+
+Lemma json_same_refl : forall j, json_same j j = true.
+Proof.
+  induction j as [| b | l | s | xs IH | ms IH] using json_ind'; cbn [json_same].
+  - reflexivity.
+  - destruct b; reflexivity.
+  - unfold num_same. rewrite zlist_eqb_refl'. reflexivity.
+  - apply zlist_eqb_refl'.
+  - induction xs as [|x xs IHx]; [reflexivity|]. inversion IH as [|? ? Hx Hxs]; subst. rewrite Hx. exact (IHx Hxs).
+  - induction ms as [|m ms IHm]; [reflexivity|]. inversion IH as [|? ? Hx Hxs]; subst.
+    rewrite zlist_eqb_refl', Hx. exact (IHm Hxs).
+Qed.
+
+(* ------------------------------------------------------------------ the other direction, on canonical documents *)
+(* a document in t2j's canonical output form is the text c = t2j(v) of some in-domain v.  Converting it to Thrift and back
+   yields the very same document: j2t gives encode v (theorem above), the proved decoder reads encode v back as v, and t2j
+   is a function.  In particular both documents parse to the same AST, so they denote the same value. *)
+Theorem j2t_t2j_denotes : f64_exact_contract -> forall D o o' t v n c,
+  matching_opts o o' -> rt_dom D t v = true -> wf v = true -> (depth v <= n)%nat -> Z.of_nat (depth v) <= max_level ->
+  t2j_text o (tdesc_of D n t) v = Some c ->
+  exists b v' c' j,
+    j2t_text strict D o' t c = Ok b /\ decode_all (tcode t) b = Some v' /\
+    t2j_text o (tdesc_of D n t) v' = Some c' /\
+    json_parse c = Some j /\ json_parse c' = Some j /\ json_same j j = true /\ v' = v /\ c' = c.
+Proof.
+  intros Hc D o o' t v n c Hm Hd Hw Hn Hs Ht.
+  destruct (t2j_j2t_id Hc D o o' t v n [] Hm Hd Hn Hs eq_refl) as (txt & H1 & H2).
+  rewrite Ht in H1. inversion H1; subst txt. rewrite app_nil_r in H2.
+  assert (Hj : exists j, json_parse c = Some j).
+  { unfold t2j_text in Ht. destruct (fst (t2j_spec o (tdesc_of D n t) v)) as [e| |] eqn:E; try discriminate.
+    destruct (jexp_finite e); [|discriminate]. inversion Ht; subst c.
+    destruct (rt_all f64_exact_lexeme (exact_contract_dlex Hc) D o o' Hm v t n 1 Hd Hn) as (e' & Hj & _ & _ & Hwf & _); [lia|].
+    destruct (matching_split _ _ Hm) as (_ & _ & _ & _ & Hce).
+    rewrite (t2j_spec_tdesc_of o D n t v e' Hce Hd Hn Hj) in E. inversion E; subst e'.
+    rewrite to_json_d_exact in Hwf. exists (to_json e). apply json_parse_print. exact Hwf. }
+  destruct Hj as [j Hj].
+  exists (encode v), v, c, j. repeat split; try assumption.
+  - rewrite <- (rt_dom_type_of D v t Hd). apply decode_all_encode. exact Hw.
+  - apply json_same_refl.
+Qed.
+
+(* ------------------------------------------------------------------ corollaries: nothing is lost *)
+Section Corollaries.
+  Variable dlex : Z -> list Z.
+  Hypothesis Hdlex : dlex_contract dlex.
+  Variable D : defs.
+  Variable o : Z.
+  Variable o' : jopts.
+  Hypothesis Hm : matching_opts o o'.
+
+  Definition rt_text (n : nat) (t : ty) (v : tval) : res :=
+    match t2j_doc dlex o D n t v with Some txt => j2t_text strict D o' t txt | None => Err 0 end.
+
+  Lemma rt_text_id n t v : rt_dom D t v = true -> (depth v <= n)%nat -> Z.of_nat (depth v) <= max_level ->
+    rt_text n t v = Ok (encode v).
+  Proof.
+    intros Hd Hn Hs. unfold rt_text.
+    destruct (t2j_j2t_id_text dlex Hdlex D o o' t v n [] Hm Hd Hn Hs eq_refl) as (txt & H1 & H2).
+    rewrite H1. rewrite app_nil_r in H2. exact H2.
+  Qed.
+
+  (* the value read back from the converted bytes is the value itself: precision, order and emptiness included *)
+  Theorem rt_value_preserved n t v : rt_dom D t v = true -> wf v = true -> (depth v <= n)%nat -> Z.of_nat (depth v) <= max_level ->
+    exists b, rt_text n t v = Ok b /\ decode_all (tcode t) b = Some v.
+  Proof.
+    intros Hd Hw Hn Hs. exists (encode v). split; [apply rt_text_id; assumption|].
+    rewrite <- (rt_dom_type_of D v t Hd). apply decode_all_encode. exact Hw.
+  Qed.
+
+  (* sign of zero *)
+  Corollary rt_neg_zero n : (1 <= n)%nat -> rt_text n TDouble (VDouble (2 ^ 63)) = Ok [128; 0; 0; 0; 0; 0; 0; 0].
+  Proof. intros Hn. rewrite rt_text_id; [reflexivity | reflexivity | exact Hn | cbn; unfold max_level; lia]. Qed.
+  Corollary rt_pos_zero n : (1 <= n)%nat -> rt_text n TDouble (VDouble 0) = Ok [0; 0; 0; 0; 0; 0; 0; 0].
+  Proof. intros Hn. rewrite rt_text_id; [reflexivity | reflexivity | exact Hn | cbn; unfold max_level; lia]. Qed.
+  Corollary rt_zero_signs_distinct n : (1 <= n)%nat -> rt_text n TDouble (VDouble (2 ^ 63)) <> rt_text n TDouble (VDouble 0).
+  Proof. intros Hn. rewrite (rt_neg_zero n Hn), (rt_pos_zero n Hn). discriminate. Qed.
+
+  (* every finite double keeps all 64 bits *)
+  Corollary rt_double_exact n b : (1 <= n)%nat -> f64_bits_ok b = true -> rt_text n TDouble (VDouble b) = Ok (enc_int 8 b).
+  Proof. intros Hn Hb. rewrite rt_text_id; [reflexivity | exact Hb | exact Hn | cbn; unfold max_level; lia]. Qed.
+
+  (* int64: every value, the extremes included, with or without Int642String *)
+  Corollary rt_i64_exact n z : (1 <= n)%nat -> in_sb 64 z = true -> rt_text n TI64 (VI64 z) = Ok (enc_int 8 z).
+  Proof. intros Hn Hz. rewrite rt_text_id; [reflexivity | exact Hz | exact Hn | cbn; unfold max_level; lia]. Qed.
+  Corollary rt_i64_min n : (1 <= n)%nat -> rt_text n TI64 (VI64 (- 2 ^ 63)) = Ok [128; 0; 0; 0; 0; 0; 0; 0].
+  Proof. intros Hn. rewrite rt_i64_exact; [reflexivity | exact Hn | reflexivity]. Qed.
+  Corollary rt_i64_max n : (1 <= n)%nat -> rt_text n TI64 (VI64 (2 ^ 63 - 1)) = Ok [127; 255; 255; 255; 255; 255; 255; 255].
+  Proof. intros Hn. rewrite rt_i64_exact; [reflexivity | exact Hn | reflexivity]. Qed.
+
+  (* empty strings and binaries stay empty (not dropped, not null) *)
+  Corollary rt_empty_string n : (1 <= n)%nat -> rt_text n TString (VString []) = Ok [0; 0; 0; 0].
+  Proof. intros Hn. rewrite rt_text_id; [reflexivity | reflexivity | exact Hn | cbn; unfold max_level; lia]. Qed.
+  Corollary rt_empty_binary n : (1 <= n)%nat -> rt_text n TBinary (VString []) = Ok [0; 0; 0; 0].
+  Proof. intros Hn. rewrite rt_text_id; [reflexivity | reflexivity | exact Hn | cbn; unfold max_level; lia]. Qed.
+
+  (* empty containers stay empty containers of the declared element types *)
+  Corollary rt_empty_list n e : (1 <= n)%nat -> rt_text n (TList e) (VList (tcode e) []) = Ok (tcode e :: [0; 0; 0; 0]).
+  Proof.
+    intros Hn. rewrite rt_text_id; [reflexivity | cbn [rt_dom forallb]; rewrite Z.eqb_refl; reflexivity | exact Hn | cbn; unfold max_level; lia].
+  Qed.
+  Corollary rt_empty_set n e : (1 <= n)%nat -> rt_text n (TSet e) (VSet (tcode e) []) = Ok (tcode e :: [0; 0; 0; 0]).
+  Proof.
+    intros Hn. rewrite rt_text_id; [reflexivity | cbn [rt_dom forallb]; rewrite Z.eqb_refl; reflexivity | exact Hn | cbn; unfold max_level; lia].
+  Qed.
+  Corollary rt_empty_map n k e : (1 <= n)%nat -> rt_key_ty k = true ->
+    rt_text n (TMap k e) (VMap (tcode k) (tcode e) []) = Ok (tcode k :: tcode e :: [0; 0; 0; 0]).
+  Proof.
+    intros Hn Hk. rewrite rt_text_id; [reflexivity | cbn [rt_dom forallb]; rewrite !Z.eqb_refl, Hk; reflexivity | exact Hn | cbn; unfold max_level; lia].
+  Qed.
+  Corollary rt_empty_struct n i sd : (1 <= n)%nat -> nth_error D i = Some sd -> req_present sd [] = true ->
+    rt_text n (TStruct i) (VStruct []) = Ok [0].
+  Proof.
+    intros Hn Hsd Hr. rewrite rt_text_id; [reflexivity | cbn [rt_dom map forallb]; rewrite Hsd, Hr; reflexivity | exact Hn | cbn; unfold max_level; lia].
+  Qed.
+
+  (* list order: the elements come back in the order they had, as the bytes show *)
+  Corollary rt_list_order n e es : rt_dom D (TList e) (VList (tcode e) es) = true ->
+    (depth (VList (tcode e) es) <= n)%nat -> Z.of_nat (depth (VList (tcode e) es)) <= max_level ->
+    rt_text n (TList e) (VList (tcode e) es) = Ok (tcode e :: enc_int 4 (zlen es) ++ flat_map encode es).
+  Proof. intros Hd Hn Hs. rewrite rt_text_id by assumption. reflexivity. Qed.
+
+  (* map entries and set elements too keep their wire order *)
+  Corollary rt_map_order n k e es : rt_dom D (TMap k e) (VMap (tcode k) (tcode e) es) = true ->
+    (depth (VMap (tcode k) (tcode e) es) <= n)%nat -> Z.of_nat (depth (VMap (tcode k) (tcode e) es)) <= max_level ->
+    rt_text n (TMap k e) (VMap (tcode k) (tcode e) es) =
+    Ok (tcode k :: tcode e :: enc_int 4 (zlen es) ++ flat_map (fun x => encode (fst x) ++ encode (snd x)) es).
+  Proof. intros Hd Hn Hs. rewrite rt_text_id by assumption. reflexivity. Qed.
+End Corollaries.
